@@ -1,10 +1,14 @@
 import Driver.Util
 import Driver.C05
 import LemoModel.MergeOrder
+import LemoModel.MapRangeSites
 /-
   Driver of the C01 stream: the ledger lines go to `Driver.C05.step` unchanged; the `mo-…` lines (harness/hx/c01_merge.go)
   drive `LemoModel.MergeOrder`: setter calls build the raw journal, `mo-refund` / `mo-votes` are the two map-ordered phases
-  of Finalize, `mo-publish` is MergeChangeLogs + Finalise, `mo-commit` is Save + a new Manager on the new block.
+  of Finalize, `mo-publish` is MergeChangeLogs + Finalise (event logs with the Index of `eventIndices`), `mo-commit` is Save +
+  a new Manager on the new block; `mo-asset` / `mo-astate` / `mo-supply` / `mo-suicide` are the asset-record setters and
+  SetSuicide, `mo-modprof` is the tx handler ModifyAssetProfileTx (`modifyProfile sortKV`, fed the entries in reversed order),
+  `mo-site` / `mo-sites` compare the map-range inventory of the sources with LemoModel.MapRangeSites.
   The model runs with its own enumeration of every map (`keysOf`); by `C01Order.finalize_order_independent` any other
   order gives the same answer.
 -/
@@ -26,6 +30,15 @@ def isRootTy (t : Nat) : Bool := t == 3 || t == 6 || t == 9 || t == 11
 
 def showLog (l : Log) : String :=
   s!"{l.addr}:{l.ty}:{l.extra}:{l.ver}:" ++ (if isRootTy l.ty then "R" else toString l.new)
+
+/-- a published log with the event Index `updateVersion` assigned (AddEventLog only) -/
+def showLogIdx (l : Log) (i : Option Nat) : String :=
+  match i with
+  | some k => showLog l ++ s!"#{k}"
+  | none => showLog l
+
+/-- asset-profile arguments: key labels 1..99, value labels never 0 (the empty string is not modelled) -/
+def profOk (p : List (Nat × Int)) : Bool := p.all (fun x => 1 ≤ x.1 && x.1 < 100 && x.2 != 0)
 
 /-- OldVal is printed for the cell-like types only (a CodeLog / AddEventLog has none, the others hold other objects) -/
 def showRaw (l : Log) : String :=
@@ -61,8 +74,45 @@ def stepMo (m : M) (w : List String) : M × String :=
     | none => (m, "bad-op")
   | ["mo-w", a, t, e, v] =>
     match a.toNat?, t.toNat?, e.toNat?, parseInt? v with
-    | some a, some t, some e, some v => ({ m with s := m.s.write a t e v }, "ok")
+    | some a, some t, some e, some v =>
+      if t == 4 || t == 5 || t == 7 || t == 16 || t ≥ 20 then (m, "bad-op")      -- own ops / not a setter
+      else if t == 2 || t == 8 || t == 10 then ({ m with s := m.s.writeT a t e v }, "ok")
+      else ({ m with s := m.s.write a t e v }, "ok")
     | _, _, _, _ => (m, "bad-op")
+  | ["mo-asset", a, c, id, sup, p] =>
+    match a.toNat?, c.toNat?, id.toNat?, sup.toNat?, parseProfile p with
+    | some a, some c, some id, some sup, some p =>
+      if !profOk p then (m, "bad-op") else ({ m with s := m.s.setAsset a c id sup p }, "ok")
+    | _, _, _, _, _ => (m, "bad-op")
+  | ["mo-astate", a, c, k, v] =>
+    match a.toNat?, c.toNat?, k.toNat?, parseInt? v with
+    | some a, some c, some k, some v =>
+      if !profOk [(k, v)] then (m, "bad-op")
+      else
+        let r := m.s.setAState a c k v
+        ({ m with s := r.1 }, if r.2 then "ok" else "err")
+    | _, _, _, _ => (m, "bad-op")
+  | ["mo-supply", a, c, v] =>
+    match a.toNat?, c.toNat?, v.toNat? with
+    | some a, some c, some v =>
+      let r := m.s.setSupply a c v
+      ({ m with s := r.1 }, if r.2 then "ok" else "panic")
+    | _, _, _ => (m, "bad-op")
+  | ["mo-suicide", a] =>
+    match a.toNat? with
+    | some a => ({ m with s := m.s.suicide a }, "ok")
+    | none => (m, "bad-op")
+  | ["mo-modprof", a, c, p] =>
+    match a.toNat?, c.toNat?, parseProfile p with
+    | some a, some c, some p =>
+      if !profOk p then (m, "bad-op")
+      else
+        -- the op line lists the map's entries in SOME order (reversed here on purpose); the handler sorts
+        let r := modifyProfile sortKV m.s a c p.reverse
+        ({ m with s := r.1 }, if r.2 then "ok" else "err")
+    | _, _, _ => (m, "bad-op")
+  | ["mo-site", row] => (m, if LemoModel.MapRangeSites.known row then "ok" else "table-mismatch")
+  | ["mo-sites", n] => (m, if n.toNat? == some LemoModel.MapRangeSites.table.length then "ok" else "table-mismatch")
   | ["mo-prof", a, p] =>
     match a.toNat?, parseProfile p with
     | some a, some p => ({ m with s := m.s.writeProfile a p }, "ok")
@@ -85,7 +135,9 @@ def stepMo (m : M) (w : List String) : M × String :=
     let parts := finaliseParts sortNat cache m.s merged
     let all := parts.1 ++ parts.2
     let recs := (pairsOf all).map (fun p => s!"{p.1}:{p.2}={recordAfter m.s parts.1 p.1 p.2}")
-    ({ m with pub := parts }, joinS (all.map showLog) ++ " | " ++ joinS recs)
+    let idx := eventIndices sortNat cache parts.1
+    let shown := (List.zipWith showLogIdx parts.1 idx) ++ parts.2.map showLog
+    ({ m with pub := parts }, joinS shown ++ " | " ++ joinS recs)
   | ["mo-commit"] => ({ m with s := m.s.commit m.pub.1, pub := ([], []) }, "ok")
   | ["mo-mark"] => ({ m with mark := m.s }, "ok")
   | ["mo-back"] => ({ m with s := m.mark, pub := ([], []) }, "ok")
